@@ -321,7 +321,7 @@ def panic_rule(ctx, res):
             res.ob(True, rule, key, "", sample={"source": k, "discharged_by": "constant shift amount"})
             continue
         a = [x for x in ALLOW if x[0] == inst["path"] and x[1] in src["detail"]]
-        a2 = allow.allowed(inst["path"], src["detail"])
+        a2 = allow.allowed(inst["path"], src["detail"], P, inst)
         if a or a2:
             res.ob(True, rule, key, "", sample={"source": k, "allowlisted": (a[0][2] if a else a2["reason"])[:120]})
             continue
